@@ -680,6 +680,16 @@ func (ex *Exec) typeOfBinder(c *Contract, b Binder) types.Type {
 	return nil
 }
 
+// partOf: the name under which an instance of a call's frame obligation is reported (and matched against the
+// `parts` of a known finding): a type-level region by its description -- fields[T], elems[T]: stable when a type is
+// added --, anything else by its heap family
+func partOf(ls LocSet) string {
+	if ls.Region && ls.Desc != "" {
+		return ls.Desc
+	}
+	return ls.Fam
+}
+
 // ---------------------------------------------------------------------------
 // calls
 
@@ -996,7 +1006,7 @@ func (ex *Exec) applyContract(st *State, c *ssa.Call, con0 *Contract, bindings [
 						ok = true
 					}
 				}
-				st.checkPart(fname, "frame", boolLit(ok), fdesc, nil, pos, ls.Fam)
+				st.checkPart(fname, "frame", boolLit(ok), fdesc, nil, pos, partOf(ls))
 				any = true
 				continue
 			}
